@@ -249,7 +249,35 @@ def gen_candidates(rng, sc):
     return out
 
 
+def gen_symmetric_hop(rng):
+    """two equivalent sites coupled by hopping; candidate: the hopping operator itself (or the site-exchange-like bond operator),
+    which commutes with H but not with the n_i -- must be rejected by the second half of checkSymmetry"""
+    spins = rng.choice([1, 2])
+    sc = Scen([("A", 1, spins), ("B", 1, spins)], [])
+    eps, t = rng.choice(DY), rng.choice(DY)
+    sc.lines = ["addLevel A %s" % fs(eps), "addLevel B %s" % fs(eps)]
+    for sp in range(spins):
+        sc.lines += herm_pair(t, [(1, "A", 0, sp), (0, "B", 0, sp)])
+    im = sc.index_map()
+    q = []
+    for sp in range(spins):
+        a, b = im[("A", 0, sp)], im[("B", 0, sp)]
+        q += [(Fraction(1), [(1, a), (0, b)]), (Fraction(1), [(1, b), (0, a)])]
+    sc.mode = "custom"
+    cs = [("hop-symmetry", q)]
+    if rng.random() < 0.5:
+        cs.append(("N", [n_op(i) for i in range(sc.n())]))
+    if rng.random() < 0.3:
+        cs.insert(0, ("site-charge", [n_op(i) for (key, i) in sorted(im.items(), key=lambda kv: kv[1]) if key[0] == "A"]))
+    sc.ioms = [c[1] for c in cs]
+    sc.tags["cand_kinds"] = [c[0] for c in cs]
+    sc.tags["want"] = "N+Sz"
+    return sc
+
+
 def gen_scenario(rng):
+    if rng.random() < 0.08:
+        return gen_symmetric_hop(rng)
     sites = gen_lattice(rng)
     sc = Scen(sites, [])
     want = rng.choice([{"N", "Sz"}, {"N", "Sz"}, {"N"}, {"Sz"}, set()])
@@ -497,7 +525,8 @@ def property_failures(rec):
         if where[t][0] != where[s][0]:
             f.append(("H-between-blocks", "<%d|H|%d> = %s but the states are in blocks %d and %d" % (t, s, v, where[t][0], where[s][0])))
             break
-    # single target and bimap content
+    # single target (over all operators first), then bimap content
+    bim = None
     for key, op in sorted(rec["ops"].items()):
         kind, i, j = key
         mono = ((1, i),) if kind == "cdag" else ((0, i),) if kind == "c" else ((1, i), (0, j))
@@ -509,12 +538,13 @@ def property_failures(rec):
         multi = [(R, sorted(Ls)) for R, Ls in sorted(pairs.items()) if len(Ls) > 1]
         if multi:
             f.append(("multi-target", "%s maps block %d into blocks %s" % (opname(key), multi[0][0], multi[0][1])))
-            break
-        if isinstance(op, dict):
+            return f
+        if isinstance(op, dict) and bim is None:
             want = sorted((min(Ls), R) for R, Ls in pairs.items())
             if sorted(op["BM"]) != want:
-                f.append(("bimap", "%s: block map is %s but the non-vanishing (left,right) pairs are %s" % (opname(key), sorted(op["BM"]), want)))
-                break
+                bim = ("bimap", "%s: block map is %s but the non-vanishing (left,right) pairs are %s" % (opname(key), sorted(op["BM"]), want))
+    if bim:
+        f.append(bim)
     return f
 
 
@@ -603,7 +633,7 @@ def conservation(rec):
             ds = sum((1 if d else -1) * (1 if rec["spins"][i] == 1 else -1) for (d, i) in m)
             if ds != 0:
                 sp = False
-    return ("N" if n else "") + ("+Sz" if (valid and sp) else "") or "none"
+    return "+".join(([("N")] if n else []) + (["Sz"] if (valid and sp) else [])) or "none"
 
 
 def shrink(sc, still_fails):
@@ -685,7 +715,7 @@ def run(chk):
 
     probes = [probe_sz(), probe_sz2(), probe_mixed(), probe_shift(), probe_shift_hubbard()]
     scens = list(probes)
-    ncases = 140 if quick else 1500
+    ncases = 400 if quick else 3000
     for _ in range(ncases):
         scens.append(gen_scenario(chk.rng))
     recs, rc, err = run_impl(h, scens)
